@@ -34,6 +34,16 @@ CHECKS = {
         note='Trusted: CrossHair/z3, the model. Outside: float/NaN priorities, custom priority_key, queues larger than the bound (production-size '
              'layouts are represented only by the small-size layouts), out-of-range BarrelList indexes.',
         ref='C10'),
+    'C11': dict(
+        technique='bounded symbolic execution (CrossHair/z3) of the real IndexedSet methods against a plain list and Python sets: '
+                  'size, removal positions (tombstone layouts), operation arguments and operand contents/kinds are solver-decided, path tree exhausted',
+        text='From every pre-state of 0..5 items with up to 3 removals at arbitrary positions (by remove or pop(i); plus 8 items/4 removals and '
+             '17 items under production compaction constants) each of 14 list-style operations and 22 set-style operations (0-2 operands, five '
+             'operand kinds, every subset of a small universe) is applied; afterwards iteration, len, in, s[i] for every valid index, EVERY '
+             'slice with bounds in -n-2..n+2/None and steps None,1,2,3, index, count, reversed and ==, followed by further appends/removals, are '
+             'compared with a list; set results with Python sets plus the ordering rule. Bounded model checking.',
+        note='Trusted: CrossHair/z3 exhaustion, list/set as oracle. Outside: >384 dead intervals, negative slice steps, iterators as operands, larger sets.',
+        ref='C11'),
     'C17': dict(
         technique='bounded symbolic execution (CrossHair/z3) of the real OneToOne/ManyToMany/FrozenDict methods: '
                   'one arbitrary operation from an arbitrary reachable pre-state, equality pattern of keys/values decided by the solver',
